@@ -40,6 +40,24 @@ fn verify_layout_expiration(layout: &LayoutMetadata) -> Result<()> {
     Ok(())
 }
 
+/// verify_unique_item_names rejects a layout in which two steps or
+/// inspections share a name: links are looked up by that name, so the
+/// evidence (and a threshold of zero) of one item would stand in for the other.
+fn verify_unique_item_names(layout: &LayoutMetadata) -> Result<()> {
+    let mut names = std::collections::HashSet::new();
+    let step_names = layout.steps.iter().map(|step| &step.name);
+    let inspection_names = layout.inspect.iter().map(|inspect| &inspect.name);
+    for name in step_names.chain(inspection_names) {
+        if !names.insert(name) {
+            return Err(Error::VerificationFailure(format!(
+                "layout defines more than one step or inspection named '{}'",
+                name
+            )));
+        }
+    }
+    Ok(())
+}
+
 /// load content from path to a Metablock
 fn load_linkfile(path: &PathBuf) -> Result<Metablock> {
     let content = fs::read_to_string(path)?;
@@ -544,6 +562,9 @@ pub fn in_toto_verify(
 
     // Verify layout expiration date
     verify_layout_expiration(&layout)?;
+
+    // Step and inspection names identify their evidence and must be unique
+    verify_unique_item_names(&layout)?;
 
     // Load metadata files for steps of layout
     let steps_links_metadata = load_links_for_layout(&layout, link_dir)?;
